@@ -14,8 +14,8 @@ func init() {
 			ruleShortLocks(c, "C15.8")
 			ruleServerCancel(c, "C15.9a", "C15.9")
 		},
-		Explain: "Static necessary conditions of data-race freedom and thread safety: a lockset (guarded-by) analysis of every access to every field of every struct of the package (must-locksets with defer-order simulation and interprocedural entry sets); the carrier wrappers serialise send-side and receive-side operations; happens-before-by-close for the four fields published by closing a signal; external memory written on the application's behalf (call-option targets) is written before the completion signal; the lock-order graph is acyclic and no mutex is re-acquired while it may be held; single consumer; once-guarded closes. Interleaving-independent by construction.",
-		Assume: []string{"lock identity is struct type + field (two instances of one type are not distinguished)", "the Go memory model for mutexes, atomics and channel close", "gRPC's one-sender/one-receiver contract for application calls on one stream"},
+		Explain:    "Static necessary conditions of data-race freedom and thread safety: a lockset (guarded-by) analysis of every access to every field of every struct of the package (must-locksets with defer-order simulation and interprocedural entry sets); the carrier wrappers serialise send-side and receive-side operations; happens-before-by-close for the four fields published by closing a signal; external memory written on the application's behalf (call-option targets) is written before the completion signal; the lock-order graph is acyclic and no mutex is re-acquired while it may be held; single consumer; once-guarded closes. Interleaving-independent by construction.",
+		Assume:     []string{"lock identity is struct type + field (two instances of one type are not distinguished)", "the Go memory model for mutexes, atomics and channel close", "gRPC's one-sender/one-receiver contract for application calls on one stream"},
 		NotDecided: []string{"races inside dependencies", "deadlock freedom beyond lock-order acyclicity, C03.2 and C07.7", "accesses whose locking is correct by type but wrong by instance"},
 	})
 	register("C16", &propDef{
@@ -26,8 +26,8 @@ func init() {
 			ruleNoDataAfterHalfClose(c, "C16.6")
 			ruleReassembly(c, "C16.7")
 		},
-		Explain: "Static necessary conditions of call-shape enforcement (none of these branches is executed by the suite): the send-count guards dominate the call into the sender with the right polarity and flag per side, incrementing under the write mutex; the look-ahead read exists on the non-streaming edge, turns a second message into the right non-nil status that sticks, and delivers the first message only after io.EOF on an intact stream; Invoke's second receive into a fresh message returning nil only on io.EOF; streaming flags flow from the StreamDesc fields of the same name.",
-		Assume: []string{"generated stubs call NewStream/Invoke with their own StreamDesc"},
+		Explain:    "Static necessary conditions of call-shape enforcement (none of these branches is executed by the suite): the send-count guards dominate the call into the sender with the right polarity and flag per side, incrementing under the write mutex; the look-ahead read exists on the non-streaming edge, turns a second message into the right non-nil status that sticks, and delivers the first message only after io.EOF on an intact stream; Invoke's second receive into a fresh message returning nil only on io.EOF; streaming flags flow from the StreamDesc fields of the same name.",
+		Assume:     []string{"generated stubs call NewStream/Invoke with their own StreamDesc"},
 		NotDecided: []string{"behaviour of generated stubs", "message counts at run time"},
 	})
 	register("C17", &propDef{
@@ -37,8 +37,8 @@ func init() {
 			ruleChannelIdentity(c, "C17.4", "C17.5")
 			ruleMetadataAccumulation(c, "C17.6")
 		},
-		Explain: "Static necessary conditions of identity propagation: the handler context's derivation chain (carrier context -> WithValue(incoming tunnel metadata) -> WithCancel -> NewIncomingContext(request metadata) -> WithTimeout|WithCancel -> server transport stream) with nothing else replacing it; each context key stored and read with matching types; the metadata accessors return Copy() of the value under their own key; the client stream context and the WithTunnelChannel option receive the channel the stream is created on, the pooled channel passing everything through; all four opening paths capture the opening metadata from the carrier's context.",
-		Assume: []string{"metadata.MD.Copy copies the map and its value slices"},
+		Explain:    "Static necessary conditions of identity propagation: the handler context's derivation chain (carrier context -> WithValue(incoming tunnel metadata) -> WithCancel -> NewIncomingContext(request metadata) -> WithTimeout|WithCancel -> server transport stream) with nothing else replacing it; each context key stored and read with matching types; the metadata accessors return Copy() of the value under their own key; the client stream context and the WithTunnelChannel option receive the channel the stream is created on, the pooled channel passing everything through; all four opening paths capture the opening metadata from the carrier's context.",
+		Assume:     []string{"metadata.MD.Copy copies the map and its value slices"},
 		NotDecided: []string{"what interceptors put in contexts", "deep-copy depth of MD.Copy"},
 	})
 	register("C18", &propDef{
@@ -49,8 +49,8 @@ func init() {
 			c.rule("C18.5", "the parser's result is the duration argument of context.WithTimeout on the handler context, applied only when the parser reported a valid header")
 			ruleTimeoutApplied(c, "C18.5")
 		},
-		Explain: "Static decision of the grpc-timeout parser's structure against the gRPC wire specification: the unit table extracted from the code equals the specification's; the numeric parse is unsigned base 10 over exactly the characters before the unit and dominated by 2 <= len <= 9; value x unit is dominated by the saturation guard value <= MaxInt64/unit whose other edge returns the maximum; every index/slice is guarded; the result is what WithTimeout receives, only when ok. This covers the whole input domain because the parser is straight-line code over these facts.",
-		Assume: []string{"strconv.ParseUint(s, 10, 64) accepts exactly non-empty ASCII digit strings that fit in uint64"},
+		Explain:    "Static decision of the grpc-timeout parser's structure against the gRPC wire specification: the unit table extracted from the code equals the specification's; the numeric parse is unsigned base 10 over exactly the characters before the unit and dominated by 2 <= len <= 9; value x unit is dominated by the saturation guard value <= MaxInt64/unit whose other edge returns the maximum; every index/slice is guarded; the result is what WithTimeout receives, only when ok. This covers the whole input domain because the parser is straight-line code over these facts.",
+		Assume:     []string{"strconv.ParseUint(s, 10, 64) accepts exactly non-empty ASCII digit strings that fit in uint64"},
 		NotDecided: []string{"clock behaviour; 'exactly that deadline' at run time", "which of several repeated grpc-timeout values gRPC itself would use"},
 	})
 }
